@@ -1,25 +1,15 @@
-import BipVerif.Prim.Bytes
-import BipVerif.Prim.Sha256
-import BipVerif.Prim.Sha512
-import BipVerif.Prim.Hmac
-import BipVerif.Prim.Pbkdf2
-import BipVerif.Prim.Ripemd160
-import BipVerif.Prim.Keccak
-import BipVerif.Prim.Blake2b
-import BipVerif.Prim.Crc
-import BipVerif.Prim.Modular
-import BipVerif.Prim.Weierstrass
-import BipVerif.Prim.Edwards
-import BipVerif.Model.Basic
-import BipVerif.Model.Base58
-import BipVerif.Model.Bech32
-import BipVerif.Model.Base32
-import BipVerif.Model.SS58
-import BipVerif.Model.Scale
-import BipVerif.Lemmas.Digits
-import BipVerif.Lemmas.Bytes
-import BipVerif.Lemmas.Base58
+-- root of the library: every property module (their imports pull in models, lemmas, tables)
+import BipVerif.Props.C01
+import BipVerif.Props.C01Tables
+import BipVerif.Props.C02
+import BipVerif.Props.C03
+import BipVerif.Props.C05
+import BipVerif.Props.C06
+import BipVerif.Props.C07
+import BipVerif.Props.C08
+import BipVerif.Props.C09
+import BipVerif.Props.C10Codec
 import BipVerif.Props.C11
-import BipVerif.Lemmas.ConvertBits
-import BipVerif.Lemmas.Polymod
-import BipVerif.Lemmas.Bech32
+import BipVerif.Props.C13Wif
+import BipVerif.Props.C17
+import BipVerif.Props.C17Tables
